@@ -10,7 +10,7 @@ Nothing is written to /repo. Exit code 2 on any build problem.
 """
 import fcntl, hashlib, json, os, re, shutil, subprocess, sys, glob, time
 
-VERIF = "/verif"
+VERIF = os.path.dirname(os.path.dirname(os.path.abspath(__file__)))
 REPO = os.environ.get("VERIF_REPO", "/repo")
 BUILD = os.path.join(VERIF, ".build")
 BL_VERSION = "v0.0.0-20250218120829-9ca66e53fd5f"
